@@ -34,6 +34,7 @@ THEOREMS = ["JanetModel.Props.C09." + t for t in (
     "asm_operand_roundtrip", "asm_operand_rejects",                                      # assembler operand fields (asm . disasm)
     "env_slot_test_is_bit", "env_walk_visits_set_bits",                                  # closure env written from a live frame
     "roundtrip_code", "roundtrip_funcdef", "roundtrip_funcenv", "code_ids_agree", "roundtrip_code_top",   # functions, funcdefs, closure envs
+    "asm_disasm_instr", "asm_disasm_bytecode",                                           # asm . disasm on instruction words / bytecode arrays
     "abstract_hook_roundtrip", "int64_hooks_paired", "int64_box_roundtrip", "channel_hooks_paired", "channel_roundtrip",  # abstract hook protocol
 )]
 
@@ -918,6 +919,19 @@ def run(ctx):
                     tag = "asm-disasm-raises" if o.startswith("err2") else "asm-disasm-behaviour"
                     violations.append((tag, {"kind": "asm", "line": l[:3000], "result": o[-600:], "janet": "(asm (disasm %s))" % l[2:3000]},
                                        "(asm (disasm f)) %s for f = %s: %s" % ("raises" if o.startswith("err2") else "behaves differently", l[2:160], o.split(" ", 2)[-1][-200:])))
+            # every instruction word the implementation produced (table cases and compiled functions, nested funcdefs included):
+            # the model's encode (decode w) must give the word back - the statement of asm_disasm_instr on the real words
+            words = set()
+            for o in aout.values():
+                if o.startswith("ok "):
+                    words.update(re.findall(r":([0-9a-f]{8})", o.split(" ", 2)[1]))
+            words = sorted(words)
+            rm = ctx.model(["reasm " + w for w in words], exe=exe) if exe and words else []
+            astats["distinct_words_reassembled_by_model"] = len(words)
+            astats["opcodes_in_words"] = len(set(int(w, 16) & 0x7F for w in words))
+            for w, r in zip(words, rm):
+                if not r.startswith("ok " + w):
+                    adiffs.append({"word": w, "model_encode_of_decode": r})
             if adiffs:
                 broken.append("correspondence model/impl on instruction words: %d differences, first %s" % (len(adiffs), json.dumps(adiffs[:3])[:600]))
                 ctx.broken.append(broken[-1])
